@@ -32,7 +32,7 @@ type c20Case struct {
 	Via           string `json:"via"`
 }
 
-var c20TextKinds = []string{"esc", "none", "esc-elsewhere", "multiline", "esc-midline"}
+var c20TextKinds = []string{"esc", "none", "esc-elsewhere", "multiline", "esc-midline", "esc-longer-dotted", "esc-with-suffix", "esc-only"}
 
 // c20Text returns the reply text and the enhanced code it begins with ("" if none).
 func c20Text(kind string, code int) (text, esc string) {
@@ -50,6 +50,15 @@ func c20Text(kind string, code int) (text, esc string) {
 		return esc + " first line of verdict\nsecond line mentions 5.1.1 and 4.4.4", esc
 	case "esc-midline":
 		return fmt.Sprintf("rejected with status %d.9.9 by filter", cls), ""
+	case "esc-longer-dotted":
+		// the text starts with a longer dotted token (an IP address), not with an enhanced status code
+		return fmt.Sprintf("%d.9.12.33 is listed in our blocklist", cls), ""
+	case "esc-with-suffix":
+		return fmt.Sprintf("%d.2.1-beta release rejected your mail", cls), ""
+	case "esc-only":
+		// the enhanced status code is the whole text
+		esc = fmt.Sprintf("%d.3.%d", cls, code%10)
+		return esc, esc
 	}
 	panic(kind)
 }
